@@ -33,6 +33,14 @@ def run(prop: str, tier: str) -> int:
         from . import props_shell
 
         return props_shell.run(prop, tier)
+    if prop in ("C10", "C11", "C12"):
+        from . import props_net
+
+        return props_net.run(prop, tier)
+    if prop == "C01":
+        from . import props_total
+
+        return props_total.run(prop, tier)
     raise SystemExit(f"no check registered for {prop}")
 
 
